@@ -2,3 +2,4 @@ import Emboss.Properties.C04Arith
 open Emboss.Bounds
 #print axioms C04_no_overflow
 #print axioms C04_choice_static_assert_counterexample
+#print axioms C04_header_types
